@@ -1,6 +1,7 @@
 package checks
 
 import (
+	"os"
 	"bytes"
 	"encoding/json"
 	"fmt"
@@ -77,6 +78,38 @@ type c14Model struct {
 	cl      *fakecluster.Cluster
 	topo    *fakecluster.Topo
 	infoBad map[int]string // node -> "loading" | "linkdown"
+	// known: what the proxy's own node table holds after the last description it adopted (1 = listed there,
+	// 2 = a master that claimed no slot: the property does not say whether such a line counts as a node).
+	// INFO is consulted only for nodes the proxy does not know yet ("newly discovered replicas").
+	known map[int]int
+}
+
+// adopted records the node table the proxy holds once it has adopted the current description.
+func (m *c14Model) adopted() {
+	m.known = map[int]int{}
+	for i := range m.topo.Nodes {
+		x := &m.topo.Nodes[i]
+		switch {
+		case !x.Usable():
+		case x.Master && len(x.Slots) == 0:
+			m.known[x.Node] = 2
+		case !x.Master && m.infoBad[x.Node] != "":
+		default:
+			m.known[x.Node] = 1
+		}
+	}
+}
+
+// countableMax also counts healthy masters that claim no slot (see known).
+func (m *c14Model) countableMax() int {
+	n := m.countable()
+	for i := range m.topo.Nodes {
+		x := &m.topo.Nodes[i]
+		if x.Usable() && x.Master && len(x.Slots) == 0 {
+			n++
+		}
+	}
+	return n
 }
 
 func (m *c14Model) present(node int) *fakecluster.TNode {
@@ -238,6 +271,10 @@ func (m *c14Model) apply(s c14Step) string {
 		mm := ms[s.A%len(ms)]
 		m.topo.Nodes = append(m.topo.Nodes, fakecluster.TNode{ID: m.cl.Nodes[x].ID, Node: x, MasterID: mm.ID})
 		desc := fmt.Sprintf("node %d joins as a replica of node %d", x, mm.Node)
+		if m.known[x] != 0 {
+			// its removal was never adopted (or it may still be listed): not a newly discovered node, INFO is not consulted
+			return desc + " (the proxy may still know it)"
+		}
 		switch s.C % 5 {
 		case 0:
 			m.infoBad[x] = "loading"
@@ -523,7 +560,7 @@ func c14Exec(c *c14Case) ([]Discrepancy, []string) {
 			idx++
 		}
 	}
-	m := &c14Model{cl: cl, topo: topo, infoBad: map[int]string{}}
+	m := &c14Model{cl: cl, topo: topo, infoBad: map[int]string{}, known: map[int]int{}}
 	m.syncInfo()
 	var f *Fixture
 	for attempt := 0; attempt < 3; attempt++ {
@@ -545,6 +582,7 @@ func c14Exec(c *c14Case) ([]Discrepancy, []string) {
 	if msg := c14Converge(f, expected, c14Slots(topo), &round, 10*time.Second); msg != "" {
 		return []Discrepancy{disc("C14/initial-topology-not-adopted", "initial topology: %s", msg)}, trace
 	}
+	m.adopted()
 	for si, s := range c.Steps {
 		if s.Kind >= 20 {
 			kind := s.Kind
@@ -589,6 +627,7 @@ func c14Exec(c *c14Case) ([]Discrepancy, []string) {
 			}
 			ok1 := waitHeld(1)
 			mid := m.topo.Clone()
+			m.adopted() // the first description is delivered, and adopted, before the second is parsed
 			d2 := m.apply(c14Step{Kind: ab[s.B%len(ab)], A: s.C, B: s.A, C: (s.C * 7) % 16384})
 			if d2 == "" || m.countable() < 3 {
 				m.topo = mid
@@ -616,17 +655,33 @@ func c14Exec(c *c14Case) ([]Discrepancy, []string) {
 				return append(ds, disc("C14/not-converged-after-back-to-back-replies", "10 s after step %d (%s) the routing still differs from the latest description: %s", si, desc, msg)), trace
 			}
 			prevTopo = m.topo.Clone()
+			m.adopted()
 			continue
+		}
+		beforeTopo, beforeBad := m.topo.Clone(), map[int]string{}
+		for k, v := range m.infoBad {
+			beforeBad[k] = v
 		}
 		desc := m.apply(s)
 		if desc == "" {
 			trace = append(trace, fmt.Sprintf("step %d: %s not applicable, skipped", si, c14KindNames[s.Kind]))
 			continue
 		}
+		if m.countable() < 3 && m.countableMax() >= 3 {
+			// whether this description has three usable nodes depends on whether a master without slots counts
+			// as one; the property does not say, so the step is not played
+			m.topo, m.infoBad = beforeTopo, beforeBad
+			evidence.For("C14").Add("steps_skipped_node_count_depends_on_slotless_master", 1)
+			trace = append(trace, fmt.Sprintf("step %d: %s would leave the node count open to interpretation, skipped", si, c14KindNames[s.Kind]))
+			continue
+		}
 		m.syncInfo()
 		m.topo.Clone().Install(cl)
 		usable := m.countable() >= 3
 		trace = append(trace, fmt.Sprintf("step %d: %s (countable nodes %d)", si, desc, m.countable()))
+		if os.Getenv("VERIF_C14_VERBOSE") != "" {
+			trace = append(trace, m.topo.Render(cl, 0))
+		}
 		if usable {
 			expected = m.topo.Expected(m.excluded())
 		}
@@ -651,6 +706,7 @@ func c14Exec(c *c14Case) ([]Discrepancy, []string) {
 			return append(ds, disc(sig, "10 s after step %d (%s) the routing still differs from the description: %s", si, desc, msg)), trace
 		}
 		prevTopo = m.topo.Clone()
+		m.adopted()
 	}
 	return nil, trace
 }
